@@ -226,7 +226,7 @@ struct DequeA {
     c.push_back({"pushb", v, 0});
     c.push_back({"pushf", v, 0});
     size_t n = d->size();
-    for (size_t p = 0; p <= n; ++p) c.push_back({"emplace", v, (long)p});
+    for (size_t p = 0; p <= n; ++p) c.push_back({"emplacew", v, (long)p});
     if (n) { c.push_back({"popb", 0, 0}); c.push_back({"popf", 0, 0}); c.push_back({"front", 0, 0}); c.push_back({"back", 0, 0}); }
     c.push_back({"clear", 0, 0});
     c.push_back({"size", 0, 0});
@@ -236,11 +236,17 @@ struct DequeA {
     std::string n = o.name;
     if (n == "pushb") { d->push_back(Elem(o.a)); return resv(1); }
     if (n == "pushf") { d->push_front(Elem(o.a)); return resv(1); }
-    if (n == "emplace") {
+    if (n == "emplacew") {
       auto it = d->begin();
       std::advance(it, o.b);
       auto r = d->emplace(it, (int)o.a);
-      return resv(val(*r));
+      // the returned iterator is a full citizen: walk it forwards to the end and from there backwards to the beginning
+      VL w;
+      w.push_back(val(*r));
+      auto x = r;
+      for (; x != d->end() && w.size() < 80; ++x) w.push_back(val(*x));
+      while (x != d->begin() && w.size() < 160) { --x; w.push_back(val(*x)); }
+      return "\"res\":" + vh::jarr(w);
     }
     if (n == "popb") { d->pop_back(); return resv(1); }
     if (n == "popf") { d->pop_front(); return resv(1); }
@@ -509,6 +515,8 @@ struct FlatMapA {
     c.push_back({"lower", 5, 0});
     c.push_back({"lower", 0, 0});
     if (d->size()) c.push_back({"erasepos", 0, (long)(d->size() / 2)});
+    // range insertion of keys 1..20 (then key 2 once more): keys already present keep their value, of equal keys the first wins
+    if (d->size() <= 4) c.push_back({"insrange", 20, v});
     c.push_back({"clear", 0, 0});
     c.push_back({"size", 0, 0});
     c.push_back({"copy", 0, 0});
@@ -524,6 +532,13 @@ struct FlatMapA {
     if (n == "at") { try { return resv(d->at((int)o.a)); } catch (std::out_of_range&) { return resv(); } }
     if (n == "lower") { auto i = d->lower_bound((int)o.a); return i == d->end() ? resv() : resv(i->first); }
     if (n == "erasepos") { d->erase(d->begin() + o.b); return resv(); }
+    if (n == "insrange") {
+      std::vector<std::pair<int, int>> r;
+      for (int k = 1; k <= (int)o.a; ++k) r.push_back({k, (int)o.b});
+      r.push_back({2, (int)o.b + 1});
+      d->insert(r.begin(), r.end());
+      return resv();
+    }
     if (n == "clear") { d->clear(); return resv(); }
     if (n == "size") return "\"res\":[" + std::to_string(d->size()) + "," + std::to_string(d->empty() ? 1 : 0) + "]";
     if (n == "copy") { std::unique_ptr<D> e(new D(*d)); d = std::move(e); return resv(); }
